@@ -82,6 +82,14 @@ def run(ctx):
                 sc.close()
                 continue
             dev, prj = sc.dev, sc.prj
+            # every fourth project is written through a second driver that shares the uploaded tag list (documented idiom): its first
+            # connected request - the Forward Open with its fallback included - is a write of this check
+            if pi % 4 == 1:
+                res.ev()
+                if sc.use_second_driver():
+                    res.count("second-driver-projects")
+                else:
+                    res.violation("second-driver-open-failed", f"a second LogixDriver(init_tags=False) sharing the tag list failed to open ({sc.label})", {"config": sc.label})
             for ci in range(16 if quick else 40):
                 k = rng.choice([1, 1, 1, 2, 3, 5, 8, 12])
                 reqs = []
